@@ -77,6 +77,8 @@ def channel(draw, name, kind, allow_child=True):
         t = base + idx * S
         idx += 1
         nfiles = draw(st.sampled_from([0, 1, 2, 3, 4]))
+        if data_kind == "dmd" and subdirs and draw(st.integers(0, 2)) == 0:
+            nfiles = 0  # metadata channels: chains of subdirectories without finalized files (look-back has to pass them)
         slots = (S * 1000) // F
         chosen = sorted(set(draw(st.integers(0, max(0, min(slots - 1, 9)))) for _i in range(nfiles))) if nfiles else []
         if nfiles and draw(st.integers(0, 3)) == 0:
@@ -87,7 +89,7 @@ def channel(draw, name, kind, allow_child=True):
             pf = draw(st.sampled_from(prefixes))
             files.append({"name": rf_name(pf, ms) if data_kind == "rf" else dmd_name(pf, ms), "ms": ms})
         strays = []
-        for _s in range(draw(st.sampled_from([0, 0, 0, 1, 2]))):
+        for _s in range(draw(st.sampled_from([0, 0, 0, 1, 2] if nfiles else [0, 1, 1, 2]))):
             ms = t * 1000 + draw(st.integers(0, max(0, slots - 1))) * F
             strays.append(draw(st.sampled_from([
                 "tmp." + rf_name("rf", ms), "tmp." + dmd_name("metadata", ms), "notes.txt",
